@@ -72,6 +72,8 @@ pub fn differs(base: &Outcome, ctx: &'static str, got: &Outcome) -> Option<Strin
         if let Canon::Set(_, e, _) = g { if e.len() == 1 && e[0].short() == want { return None; } }
         return Some(format!("over globals {}, as the one element of the comprehension {}", b.short(), g.short()));
       }
+      // a comprehension keeps the elements of a matrix-valued body, in an order of its own: compared as a multiset
+      let (be, ge) = if ctx == CONTEXTS[2] && matches!(b, Canon::Matrix(_, r, c, _, _) if *r > 1 && *c > 1) { let (mut x, mut y) = (be, ge); x.sort(); y.sort(); (x, y) } else { (be, ge) };
       if be == ge && (bk == gk || ge.is_empty()) { None } else { Some(format!("over globals {} , in this context {}", b.short(), g.short())) }
     }
     (Outcome::Value(b), other) => Some(format!("over globals {} , in this context {}", b.short(), other.short())),
